@@ -37,6 +37,15 @@ claimed = {
    note="Linearizability under concurrent callers follows from the proved lock discipline plus the sequential spec by the standard argument (not mechanised); fnv64a is uninterpreted and assumed collision-free on the names seen; hash.Hash and sync.Mutex contracts are assumed.",
    ref="7 C19"),
 }
+ 
+claimed["C09"] = dict(
+   text="Deductive proof of necessary conditions of the persistent FIFO on the real writeOne/readOne/moveForward/skipToNextRWFile: writer and reader advance (file, position) by the same step function for all sizes and limits (same rollover boundary), the writer hands the file exactly be32(len) ++ payload in one write at its position and increments depth, the reader never acknowledges (read position and depth untouched until moveForward), moveForward adopts the read-ahead position, decrements depth and removes a segment only when it left it. The theorem itself (delivered = enqueued, in order, once, depth at rest, across close/reopen) is decided by a bounded stand-in on the real queue, labelled bounded and not counted as proved.",
+   note="os.File, bufio, binary and bytes.Buffer contracts are assumed; file contents are not modelled, so the inverse-pair property of the framing and the ioLoop event loop (acknowledge only after delivery) are covered by the bounded stand-in only (histories of 4 operations, thorough 6 sampled, six size/sync configurations); panic-freedom of these functions is not checked (a corrupted segment is outside C09's clean-restart fault model).",
+   ref="7 C09")
+claimed["C15"] = dict(
+   text="Deductive proof (panic-freedom included) that GetDestinationIndex returns the destination of the first ring entry at or after the key's 16-bit position, wrapping to the first entry, for every position-sorted non-empty ring (sort.Search contract over the inlined predicate, modulo ring length), that hashRing.Less is Carbon's (position, hostname, instance) order, and that ConsistentHashing.Dispatch sends the line to exactly that one destination (key = bytes before the first space) and to no other channel. The ring construction (16-bit md5 positions, 100 replicas, key format) and the order-independence / minimal-movement clauses are decided by a bounded stand-in against an independent implementation of Carbon's ring.",
+   note="computeRingPosition and NewConsistentHasher/AddDestination are trusted at the contract level and checked by bounded stand-ins only (random keys; every subset of up to 4 of 5 destinations in every order x 3000 names); md5 is uninterpreted (ringPos); agreement with carbon-relay.py is relative to the ring definition in the property statement.",
+   ref="7 C15")
 reasons = {
  "C08": "crash-point quantifier needs a crash semantics for the file system, a recovery function and a crash invariant at every intermediate state (crash Hoare logic); no contract within reach of the VC generator written here expresses it (DESIGN.md section 11)",
 }
